@@ -12,7 +12,7 @@
 
    File patch   [kind \in {"M","C","D"}, old, new (NULL = /dev/null), ren,
                  hunks : Seq([cell, from, to]), to, from : Seq(Nat), nmode]
-   Patch        [fps : Seq(file patch)]                                      *)
+   Patch        [fps : Seq(file patch), rev : BOOLEAN (series entry marked -R)]                                      *)
 EXTENDS Naturals, Integers, Sequences, FiniteSets
 
 CONSTANT Paths          \* the working-tree paths of the universe
@@ -56,33 +56,46 @@ ApplyBody(f, fp) ==
 
 WithMode(f, fp) == IF fp.nmode # NoMode /\ f.ex THEN [f EXCEPT !.mode = fp.nmode] ELSE f
 
+(* A series entry marked -R applies its patch reversed: creation and deletion swap, every hunk
+   goes from `to` back to `from`; the names are used as written. *)
+RevHunks(hs) == [i \in 1..Len(hs) |-> [cell |-> hs[i].cell, from |-> hs[i].to, to |-> hs[i].from]]
+RevBody(fp) == [fp EXCEPT !.kind = IF fp.kind = "C" THEN "D" ELSE IF fp.kind = "D" THEN "C" ELSE "M",
+                          !.hunks = RevHunks(fp.hunks), !.to = fp.from, !.from = fp.to,
+                          !.new = fp.old, !.old = fp.new,
+                          !.nmode = IF fp.nmode # NoMode /\ fp.kind = "M" THEN "644" ELSE NoMode]
+
 (* Inputs on which the statement of the properties is not decisive (DESIGN 2.5): a rename whose
-   source does not exist (the tool reports success and creates an empty target, GNU patch refuses). *)
-Adversarial(tree, fp) == fp.ren /\ (~tree[ChooseName(tree, fp)].ex \/ ChooseName(tree, fp) = fp.new)
+   source does not exist (the tool reports success and creates an empty target, GNU patch refuses),
+   a reversed rename, and a mode change without hunks for a file that does not exist (the tool
+   remembers the mode for a later creation, GNU patch cannot find the file). *)
+Adversarial(tree, fp, rev) ==
+  \/ fp.ren /\ (rev \/ ~tree[ChooseName(tree, fp)].ex \/ ChooseName(tree, fp) = fp.new)
+  \/ fp.kind = "M" /\ fp.hunks = <<>> /\ ~fp.ren /\ ~tree[ChooseName(tree, fp)].ex
 
 (* result: [tree, ok, attempted, target, final, failed, before, beforeNew] *)
-ApplyFP(tree, fp) ==
+ApplyFP(tree, fp, rev) ==
   LET target == ChooseName(tree, fp)
+      body == IF rev THEN RevBody(fp) ELSE fp
       refused == fp.ren /\ target # fp.new /\ tree[fp.new].ex /\ ~IsEmpty(tree[fp.new])
       t1 == IF fp.ren /\ ~refused /\ target # fp.new
             THEN [tree EXCEPT ![fp.new] = [tree[target] EXCEPT !.ex = TRUE], ![target] = Absent]
             ELSE tree
       final == IF fp.ren THEN fp.new ELSE target
-      r == ApplyBody(t1[final], fp)
+      r == ApplyBody(t1[final], body)
   IN IF refused
      THEN [tree |-> tree, ok |-> FALSE, attempted |-> FALSE, target |-> target, final |-> target, failed |-> {},
            before |-> tree[target], beforeNew |-> Absent]
-     ELSE [tree |-> [t1 EXCEPT ![final] = WithMode(r.f, fp)], ok |-> r.failed = {}, attempted |-> TRUE,
+     ELSE [tree |-> [t1 EXCEPT ![final] = WithMode(r.f, body)], ok |-> r.failed = {}, attempted |-> TRUE,
            target |-> target, final |-> final, failed |-> r.failed,
            before |-> tree[target], beforeNew |-> IF fp.ren THEN tree[fp.new] ELSE Absent]
 
-RECURSIVE ApplyFPs(_, _, _)
-ApplyFPs(tree, fps, i) ==
+RECURSIVE ApplyFPs(_, _, _, _)
+ApplyFPs(tree, fps, i, rev) ==
   IF i > Len(fps) THEN [tree |-> tree, results |-> <<>>, adv |-> FALSE]
-  ELSE LET r    == ApplyFP(tree, fps[i])
-           rest == ApplyFPs(r.tree, fps, i + 1)
+  ELSE LET r    == ApplyFP(tree, fps[i], rev)
+           rest == ApplyFPs(r.tree, fps, i + 1, rev)
        IN [tree |-> rest.tree,
-           adv |-> Adversarial(tree, fps[i]) \/ rest.adv,
+           adv |-> Adversarial(tree, fps[i], rev) \/ rest.adv,
            results |-> <<[ok |-> r.ok, attempted |-> r.attempted, target |-> r.target, final |-> r.final,
                           failed |-> r.failed, before |-> r.before, beforeNew |-> r.beforeNew,
                           ren |-> fps[i].ren, new |-> fps[i].new]>> \o rest.results]
@@ -95,7 +108,7 @@ RECURSIVE Run(_, _, _, _, _, _)
 \* acc: results of the applied patches, in order
 Run(tree, series, i, last, acc, adv) ==
   IF i > last THEN [k |-> Len(acc), tree |-> tree, applied |-> acc, failing |-> <<>>, stopped |-> FALSE, adv |-> adv]
-  ELSE LET r == ApplyFPs(tree, series[i].fps, 1)
+  ELSE LET r == ApplyFPs(tree, series[i].fps, 1, series[i].rev)
        IN IF PatchOk(r.results) THEN Run(r.tree, series, i + 1, last, Append(acc, r.results), adv \/ r.adv)
           ELSE [k |-> Len(acc), tree |-> tree, applied |-> acc, failing |-> r.results, stopped |-> TRUE, adv |-> adv \/ r.adv]
 
